@@ -11,16 +11,18 @@ Obligations checked on every run (see design/C04.md):
   * monitor: the essential invariants (Lean `monitorStep`/`snapOk`) on the dumped states of ALL kinds, modelled or not;
   * white-box: the propNames/lastSortedPropLen/idxPropCount invariants the Lean proof needs (Rel), after every op.
 """
-import json, os, subprocess, sys, time, glob
+import json, os, re, subprocess, sys, time, glob
 from vlib import *
 
 MODELLED = ["plain", "nullproto", "arrow", "bound", "class", "strobj", "sargs"]
 ARRAYS = ["arr", "sparr"]                       # dense [101,102,103] / sparse (a[5000]) arrays: monitored (modelled by C07)
 TEMPLATED = ["fproto", "aproto", "sproto", "dproto", "taproto", "mapproto", "setproto", "promproto", "symproto", "regproto",
              "json", "math", "global"]           # lazily-templated built-in prototypes / namespace objects (fresh runtime per case)
-MONITORED = ARRAYS + TEMPLATED + ["func", "args", "u8", "gomap", "goslice", "gostruct", "dyn"]
+MONITORED = ARRAYS + TEMPLATED + ["func", "args", "u8", "gomap", "goslice", "gostruct", "dyn", "dynarr"]
+# kinds for the key-kind metamorphic check (no model of the kind needed): every kind with hand-written Str/Idx method copies
+META_KINDS = ["goslice", "gomap", "gostruct", "dyn", "dynarr", "u8", "args", "sargs", "strobj", "arr", "sparr", "func", "plain"]
 GENERAL_MONITORED = [k for k in MONITORED if k not in TEMPLATED or k in ("math", "global")]
-WRAPPERS = {"gomap", "goslice", "gostruct", "dyn"}          # documented non-ordinary variants: key order not checked
+WRAPPERS = {"gomap", "goslice", "gostruct", "dyn", "dynarr"}          # documented non-ordinary variants: key order not checked
 DEFAULT_PROTO = {"plain": "O", "nullproto": "null", "arrow": "F", "bound": "F", "class": "F", "strobj": "?", "sargs": "O"}
 
 # well-known symbols are SYM[3..] of the harness prelude
@@ -192,7 +194,7 @@ def table_check(ctx, h, model):
 
 
 # ----------------------------------------------------------------------------------------------- sequences (corr B)
-IDX = [0, 1, 2, 7]
+IDX = [0, 1, 2, 3, 4, 7]          # around the length of the 2- and 3-element array-likes: len-1, len, len+1
 STRS = ["a", "b", "c"]
 SYMS = [0, 1]
 VALS = ["n0", "n1", "n2", "n3", "n4", "n5", "u"]
@@ -336,6 +338,125 @@ def gen_templated_case(rng, maxops=24):
         else:
             ops.append([rng.choice(["frz", "seal"]), o, dump])
     return {"objs": objs, "ops": ops, "monitored": True}
+
+
+def gen_meta_case(rng, maxops=26):
+    """key-kind metamorphic cases: an exotic / wrapper object under a custom prototype that carries accessors and non-writable
+    data at index keys around the object's length; every index key is written as an integer (variant A)"""
+    kind = rng.choice(META_KINDS + ["goslice", "goslice", "dynarr", "u8", "arr"])      # array-likes weigh more
+    objs = [("plain", "O"), (kind, "o0" if rng.random() < 0.9 else "-")]
+    if rng.random() < 0.3:
+        objs.append(("plain", "o1"))
+    n = len(objs)
+    L = {"arr": 3, "sparr": 5001}.get(kind, 2)      # initial length of the array-like
+    near = [L - 1, L, L + 1]                        # the last element, the first missing index, the one after
+
+    def idx():
+        return rng.choice(near) if rng.random() < 0.65 else rng.choice(IDX)
+
+    def ikey():
+        return "i%d" % idx() if rng.random() < 0.85 else rng.choice(["slength", "sa", "sA", "y0"])
+    ops = []
+    for _ in range(rng.randrange(2, 6)):       # the prototype: setters, getters, non-writable data, plain data at index keys
+        r = rng.random()
+        k = "i%d" % idx()
+        if r < 0.4:
+            d = ["-", "-", gen_flag(rng), "t", rng.choice(["-", "f1", "u"]), rng.choice(["f0", "f3"])]
+        elif r < 0.7:
+            d = [rng.choice(VALS), "f", gen_flag(rng), "t", "-", "-"]
+        else:
+            d = [rng.choice(VALS), "t", "t", "t", "-", "-"]
+        ops.append(["def", rng.choice(["O", "R"]), "o0", k] + d + ["-"])
+    nops = rng.randrange(4, maxops + 1)
+    for j in range(nops):
+        o = "o1" if rng.random() < 0.8 else "o%d" % rng.randrange(n)
+        dump = "D" if (rng.random() < 0.5 or j == nops - 1) else "-"
+        r = rng.random()
+        if r < 0.40:
+            via = rng.choice(["S", "T", "R", "R", "G"])
+            recv = "="
+            if via == "R" and rng.random() < 0.3:
+                recv = rng.choice(["o%d" % rng.randrange(n), "p"])
+            ops.append(["set", via, o, ikey(), rng.choice(VALS), recv, dump])
+        elif r < 0.58:
+            ops.append(["def", rng.choice(["O", "R", "G"]), o, ikey()] + gen_desc(rng) + [dump])
+        elif r < 0.70:
+            ops.append(["get", rng.choice(["S", "R", "G"]), o, ikey(), "=", dump])
+        elif r < 0.80:
+            ops.append(["del", rng.choice(["S", "T", "R", "G"]), o, ikey(), dump])
+        elif r < 0.90:
+            ops.append([rng.choice(["has", "hasown"]), rng.choice(["S", "R"]), o, ikey(), dump])
+        elif r < 0.96:
+            ops.append(["set", rng.choice(["S", "R", "G"]), o, "slength", rng.choice(["l0", "l1", "l2", "l3", "l4"]), "=", dump])
+        else:
+            ops.append(["pe", rng.choice(["O", "R"]), o, dump])
+    return {"objs": objs, "ops": ops, "monitored": True, "meta": True}
+
+
+KEYED = ("def", "set", "get", "del", "has", "hasown")
+
+
+def variant_string_keys(case):
+    """variant B: the same sequence with every index key spelled as its canonical numeric STRING"""
+    ops = []
+    for op in case["ops"]:
+        op = list(op)
+        if op[0] in KEYED and op[3].startswith("i") and op[3][1:].isdigit():
+            op[3] = "I" + op[3][1:]
+        ops.append(op)
+    return {"objs": case["objs"], "ops": ops, "monitored": True}
+
+
+def variant_reflect(case):
+    """variant C: the same sequence issued through Reflect.* only"""
+    ops = []
+    for op in case["ops"]:
+        op = list(op)
+        if op[0] in ("def", "set", "get", "del", "has", "pe", "sp"):
+            op[1] = "R"
+        ops.append(op)
+    return {"objs": case["objs"], "ops": ops, "monitored": True}
+
+
+def norm_result(l):
+    """(success?, rest) of a harness answer line, entry-point independent: ok/t -> 1, throw/f -> 0, '-' (sloppy assignment) -> None"""
+    l = strip_impl(l)[0]
+    if l.startswith("err:"):
+        # a non-TypeError exception: compare its class only (the JS and Go sides format the message differently)
+        i = l.find(" # ")
+        return "err:" + re.split(r"[^A-Za-z]", l[4:])[0], (l[i:] if i >= 0 else "")
+    head, _, rest = l.partition(" ")
+    m = {"ok": 1, "t": 1, "throw": 0, "f": 0, "-": None}
+    return (m[head] if head in m else head), rest
+
+
+def canon_unordered(l):
+    """a Go map wrapper lists its keys in Go map iteration order (random): sort every key/props/for-in list of the line"""
+    def srt(m):
+        return m.group(1) + ",".join(sorted(m.group(2).split(","))) + "]"
+    return re.sub(r"((?:keys|props|forin)=\[)([^\]]*)\]", srt, l)
+
+
+def meta_compare(case, a, b, strict):
+    """first line where two runs of the same abstract sequence differ (strict: whole line; else success flag + log + dump)"""
+    lines = case_lines(case)
+    unordered = any(k == "gomap" for k, _ in case["objs"])
+    if unordered:
+        a = [canon_unordered(x) for x in a]
+        b = [canon_unordered(x) for x in b]
+    for i in range(len(case["objs"]) + 1, min(len(a), len(b))):
+        if strict:
+            if strip_impl(a[i])[0] != strip_impl(b[i])[0]:
+                return i
+        else:
+            ra, xa = norm_result(a[i])
+            rb, xb = norm_result(b[i])
+            op = lines[i].split()
+            if xa != xb or (ra is not None and rb is not None and ra != rb and op[0] != "hasown"):
+                return i
+    if len(a) != len(b):
+        return min(len(a), len(b))
+    return None
 
 
 def check_template_symbols(case, impl):
@@ -694,6 +815,98 @@ def main(ctx):
                       "corpus_cases": len(corpus)})
     for c in cases[len(corpus):len(corpus) + 4]:
         ctx.sample(" ; ".join(case_lines(c))[:600])
+
+    # ---------------- key-kind / entry-point metamorphic check on kinds that have no model
+    n_meta = 700 if quick else 4000
+    meta_cases = [gen_meta_case(ctx.rng) for _ in range(n_meta)]
+    meta_cases += [c for c in cases if c.get("monitored") and any(k in ARRAYS for k, _ in c["objs"])][:150 if quick else 800]
+    meta_a = []
+    for c in meta_cases:
+        ops = []
+        for op in c["ops"]:
+            op = list(op)
+            if op[0] in KEYED and op[3].startswith("I") and op[3][1:].isdigit():
+                op[3] = "i" + op[3][1:]
+            ops.append(op)
+        meta_a.append({"objs": c["objs"], "ops": ops, "monitored": True})
+    meta_b = [variant_string_keys(c) for c in meta_a]
+    meta_c = [variant_reflect(c) for c in meta_a]
+    ra = [x[0] for x in run_cases(ctx, h, None, meta_a)]
+    rb = [x[0] for x in run_cases(ctx, h, None, meta_b)]
+    rc = [x[0] for x in run_cases(ctx, h, None, meta_c)]
+    ctx.count(sum(len(c["ops"]) for c in meta_a) * 3)
+    meta_bad, seen_m = 0, set()
+    kinds_m = {}
+    for c, cb, cc, a, b, cr in zip(meta_a, meta_b, meta_c, ra, rb, rc):
+        kind = c["objs"][1][0] if len(c["objs"]) > 1 else c["objs"][0][0]
+        kinds_m[kind] = kinds_m.get(kind, 0) + 1
+        ctx.nontriv(("meta", c["objs"], c["ops"]))
+        for tag, other, oc, strict in (("int-vs-string-key", b, cb, True), ("entry-point", cr, cc, False)):
+            if len(a) != len(case_lines(c)) or len(other) != len(case_lines(c)):
+                continue            # incomplete shard output: reported by harness-completed-every-case of the main stream only
+            d = meta_compare(c, a, other, strict)
+            if d is None:
+                continue
+            la, lo = case_lines(c), case_lines(oc)
+            okind = kind
+            opw = la[d].split()
+            if len(opw) > 2 and opw[2][1:].isdigit() and int(opw[2][1:]) < len(c["objs"]):
+                okind = c["objs"][int(opw[2][1:])][0]
+            sig = "keykind-metamorphic:%s:%s:%s" % (tag, okind, opw[0])
+            if opw[0] == "get":
+                va, vo = strip_impl(a[d])[0].split(" ")[0], strip_impl(other[d])[0].split(" ")[0]
+                if (va == "u") != (vo == "u"):
+                    sig += ":string-keyed-get-misses-inherited-property"
+            if opw[0] == "set" and opw[3].startswith("i"):
+                # a [[Set]] whose walk passes THROUGH a Go map wrapper (explicit other receiver, or the map on the target's chain)
+                gm = [i for i, (k, _) in enumerate(c["objs"]) if k == "gomap"]
+                chain, cur = [], int(opw[2][1:])
+                while cur is not None and cur not in chain:
+                    chain.append(cur)
+                    pr = c["objs"][cur][1]
+                    cur = int(pr[1:]) if pr.startswith("o") and pr[1:].isdigit() else None
+                recv_other = opw[5] not in ("=", opw[2])
+                if any(g in chain and (g != chain[0] or recv_other) for g in gm):
+                    sig = "gomap:setForeignIdx-skips-own-index-key"
+            if ctx.known_signature(sig) is None:
+                meta_bad += 1
+            if sig in seen_m:
+                continue
+            seen_m.add(sig)
+            # shrink: drop ops while the two spellings still disagree
+            def fails(ops, c=c, tag=tag, strict=strict):
+                ca = {"objs": c["objs"], "ops": [list(o) for o in ops], "monitored": True}
+                if ca["ops"]:
+                    ca["ops"][-1][-1] = "D"
+                co = variant_string_keys(ca) if tag == "int-vs-string-key" else variant_reflect(ca)
+                xa = _run1(h, "\n".join(case_lines(ca)) + "\n")
+                xo = _run1(h, "\n".join(case_lines(co)) + "\n")
+                return bool(xa) and bool(xo) and meta_compare(ca, xa, xo, strict) is not None
+            small = c["ops"]
+            if len(seen_m) <= (6 if quick else 20):
+                try:
+                    small = ctx.ddmin([list(o) for o in c["ops"]], fails)
+                    if small:
+                        small[-1][-1] = "D"
+                except Exception:
+                    small = c["ops"]
+            sa = {"objs": c["objs"], "ops": small, "monitored": True}
+            so = variant_string_keys(sa) if tag == "int-vs-string-key" else variant_reflect(sa)
+            xa = _run1(h, "\n".join(case_lines(sa)) + "\n")
+            xo = _run1(h, "\n".join(case_lines(so)) + "\n")
+            dd = meta_compare(sa, xa, xo, strict)
+            if dd is None:
+                sa, so, xa, xo, dd = c, oc, a, other, d
+            ctx.violation(sig, "the same operation gives different answers/states when %s: `%s` -> %s   vs   `%s` -> %s"
+                          % ("the index key is an integer vs its canonical numeric string" if tag == "int-vs-string-key" else "issued through Reflect.* instead of syntax/Object.*/Go API",
+                             case_lines(sa)[dd], strip_impl(xa[dd])[0][:200], case_lines(so)[dd], strip_impl(xo[dd])[0][:200]),
+                          {"kind": "history", "objs": sa["objs"], "ops": sa["ops"], "lines": case_lines(sa), "lines_variant": case_lines(so),
+                           "observed": [strip_impl(x)[0][:500] for x in xa], "observed_variant": [strip_impl(x)[0][:500] for x in xo]})
+    ctx.stats["metamorphic_cases"] = len(meta_a)
+    ctx.stats["metamorphic_kind_mix"] = kinds_m
+    ctx.obligation("keykind-metamorphic(int vs numeric-string key; Reflect vs other entry points)", "correspondence", meta_bad == 0,
+                   "%d sequences on kinds %s each run with integer keys, with numeric-string keys and through Reflect.*; %d disagreements not attributed to a known finding"
+                   % (len(meta_a), ",".join(META_KINDS), meta_bad))
 
     # spec attributes of the well-known-symbol properties of templated built-ins at their first observed state
     tmpl_bad, seen_t = 0, set()
